@@ -658,6 +658,11 @@ def run(ctx):
     # files are written ahead of the commit: readers must clip to the committed height or they serve the residue
     from . import c10
     ctx.rule('C04.BYHEIGHT', lambda: c10.rule_byheight(ctx, 'C04.BYHEIGHT'), 2)
+    # recovery decodes what the flushes encoded (flush ids in history keys, the state records): writer / reader agreement
+    from . import c01 as _c01, c02 as _c02
+    sch = ctx.rule('C02.SCHEMAS', lambda: _c01.Schemas(ctx))
+    if sch is not None:
+        ctx.rule('C02.LAYOUT', lambda: _c02.rule_layout(ctx, sch), 14)
     ctx.rule('C04.WHO-control', lambda: positive_control_who(ctx))
     ctx.note(f'inlined effect graph of DB.flush_dbs: {ig.stats()}')
 
